@@ -523,7 +523,7 @@ pub fn check(args: &Args) -> i32 {
     let seed = args.seed;
     let total_pairs = pair_count();
     let n_pairs = if thorough { total_pairs } else { args.runs.unwrap_or(12_000).min(total_pairs) };
-    let n_links = if thorough { 60_000 } else { args.runs.map(|r| r / 4).unwrap_or(3_000) };
+    let n_links = if thorough { 150_000 } else { args.runs.map(|r| r / 4).unwrap_or(3_000) };
     // pairs (pure Rust, cheap)
     let pair_outs = parallel_map(n_pairs, args.workers, move |i| {
         let idx = if n_pairs == total_pairs { i } else { mix(seed, "C13.pair", i) % total_pairs };
